@@ -19,6 +19,13 @@ CONDS = [
          'and over {li, p, text} up to length 4 / 8; containers: <ul> in HTML doc (all layouts); document top level, '
          'detached <ul>, <ul> in XML doc (layouts up to length 3 / 4); body runs natively once the solver has fixed the indices',
          timeout={'quick': 100, 'thorough': 900}, parts={'quick': 10, 'thorough': 16}),
+    Cond('nth_pairs_ok', 'two positional pseudo-classes on one compound (child / of-type / "of .x", either direction each): '
+         'match_nth(el, (n1, n2)) == both reference positions hit, for all position pairs (p, q)',
+         'same layout/container pool; 6 mode pairs x 4 direction pairs', timeout={'quick': 100, 'thorough': 900},
+         parts={'quick': 6, 'thorough': 12}),
+    Cond('nth_comment_spelling_ok', 'An+B spellings with comments and mixed whitespace around the sign, keyword case, through '
+         'the real compile(): IR (a, b), of_type, last, of-S as the reference says', '14 spellings x 5 names x with/without of S',
+         timeout={'quick': 60, 'thorough': 120}),
     Cond('nth_detached_ok', 'parentless element (fake parent): position 1 from either end; a, b unbounded',
          'a, b: all integers', timeout={'quick': 60, 'thorough': 300}, expect_exhaustive=True),
     Cond('nth_parse_ok',
